@@ -27,10 +27,11 @@ import (
 // what makes two descriptors equal (evidence counter "rule:<name>"). See rules() below.
 
 type descr struct {
-	d     *dialect
-	norm  bool
-	lines []string
-	used  map[string]bool // rules that changed a value while building this descriptor
+	d        *dialect
+	norm     bool
+	lines    []string
+	partDesc *bool           // set while the attributes of an index part are rendered
+	used     map[string]bool // rules that changed a value while building this descriptor
 }
 
 func (x *descr) put(path, val string) { x.lines = append(x.lines, path+" = "+val) }
@@ -75,6 +76,20 @@ func (x *descr) table(t *schema.Table) {
 	} else {
 		x.put(p+".schema", strconv.Quote(t.Schema.Name))
 	}
+	// checks are an ordered list, the remaining table attributes a set.
+	n := 0
+	x.attrs(p+".attrs", t.Attrs, func(a schema.Attr) bool {
+		ck, ok := a.(*schema.Check)
+		if !ok {
+			return false
+		}
+		kp := fmt.Sprintf("%s.check[%d]", p, n)
+		n++
+		x.put(kp+".name", strconv.Quote(ck.Name))
+		x.put(kp+".expr", strconv.Quote(ck.Expr))
+		x.attrs(kp+".attrs", ck.Attrs, nil)
+		return true
+	}, tableParent(t))
 	var cn []string
 	for _, c := range t.Columns {
 		cn = append(cn, c.Name)
@@ -104,8 +119,15 @@ func (x *descr) table(t *schema.Table) {
 	for _, i := range t.Indexes {
 		in = append(in, i.Name)
 	}
+	idxs := append([]*schema.Index(nil), t.Indexes...)
+	if x.norm && x.d.name == "postgres" && !sort.StringsAreSorted(in) {
+		// rule pg-index-order
+		x.rule("pg-index-order")
+		sort.Strings(in)
+		sort.SliceStable(idxs, func(a, b int) bool { return idxs[a].Name < idxs[b].Name })
+	}
 	x.put(p+".indexes", fmt.Sprintf("%q", in))
-	for _, i := range t.Indexes {
+	for _, i := range idxs {
 		x.index(p+".index["+i.Name+"]", i, false)
 	}
 	var fn []string
@@ -125,20 +147,6 @@ func (x *descr) table(t *schema.Table) {
 		x.put(fp+".on_delete", strconv.Quote(string(f.OnDelete)))
 		x.attrs(fp+".attrs", f.Attrs, nil)
 	}
-	// checks are an ordered list, the remaining table attributes a set.
-	n := 0
-	x.attrs(p+".attrs", t.Attrs, func(a schema.Attr) bool {
-		ck, ok := a.(*schema.Check)
-		if !ok {
-			return false
-		}
-		kp := fmt.Sprintf("%s.check[%d]", p, n)
-		n++
-		x.put(kp+".name", strconv.Quote(ck.Name))
-		x.put(kp+".expr", strconv.Quote(ck.Expr))
-		x.attrs(kp+".attrs", ck.Attrs, nil)
-		return true
-	}, tableParent(t))
 }
 
 func colNames(cs []*schema.Column) string {
@@ -172,7 +180,10 @@ func (x *descr) index(p string, i *schema.Index, pk bool) {
 		}
 		x.put(pp+".seqno", fmt.Sprint(part.SeqNo))
 		x.put(pp+".desc", fmt.Sprint(part.Desc))
+		desc := part.Desc
+		x.partDesc = &desc
 		x.attrs(pp+".attrs", part.Attrs, nil)
+		x.partDesc = nil
 	}
 	x.attrs(p+".attrs", i.Attrs, nil)
 }
@@ -183,11 +194,18 @@ func (x *descr) expr(e schema.Expr, c *schema.Column) string {
 	case nil:
 		return "none"
 	case *schema.Literal:
-		if x.norm && hexBitPrefix(e.V) {
-			x.rule("hex-bit-literal-kind")
-			return "rawexpr " + strconv.Quote(e.V)
+		v := e.V
+		if x.norm {
+			if u, ok := wellQuoted(v, '\''); ok {
+				x.rule("literal-quotes")
+				v = u
+			}
+			if hexBitPrefix(v) {
+				x.rule("hex-bit-literal-kind")
+				return "rawexpr " + strconv.Quote(v)
+			}
 		}
-		return "literal " + strconv.Quote(x.literal(e.V, c))
+		return "literal " + strconv.Quote(x.literal(v, c))
 	case *schema.RawExpr:
 		return "rawexpr " + strconv.Quote(e.X)
 	case *schema.NamedDefault:
@@ -282,6 +300,12 @@ func (x *descr) attrs(path string, as []schema.Attr, take func(schema.Attr) bool
 				hasCS = true
 			case *schema.Collation:
 				hasCO = true
+			}
+			if n, ok := x.normAttr(a); ok {
+				if n != "" {
+					out = append(out, n)
+				}
+				continue
 			}
 		}
 		out = append(out, fmt.Sprintf("%T%s", a, render(reflect.ValueOf(a), x, 0)))
@@ -403,6 +427,18 @@ var ruleDocs = map[string]string{
 	"generated-type-default": "GeneratedExpr.Type is compared upper-cased with the dialect default filled in: mysql/sqlspec_oss.go storedOrVirtual " +
 		"(`// The default is VIRTUAL if no type is specified.`, `// In MariaDB, PERSISTENT is synonyms for STORED.`), sqlite/sqlspec.go storedOrVirtual, " +
 		"postgres/sqlspec_oss.go generatedType (`// generatedType returns the default and only type for a generated column.`).",
+	"bool-literal-case": "the literals true/false are compared case-insensitively: ColumnDefault (`case strings.ToLower(x.V) == \"true\", strings.ToLower(x.V) == \"false\": return cty.BoolVal(...)`).",
+	"mysql-time-precision-default": "MySQL time types: Precision nil equals 0: mysql/convert.go FormatType (`if p := t.Precision; p != nil && *p > 0`) prints both as the bare type name " +
+		"(DESIGN.md C15: `Precision: nil` vs `&0` print identically and mean the same type).",
+	"pg-interval-precision-default": "PostgreSQL interval: Precision nil equals 6: postgres/convert.go FormatType (`if t.Precision != nil && *t.Precision != defaultTimePrecision`), " +
+		"sqlspec_oss.go interval FromSpec (`if p != defaultTimePrecision { i.Precision = &p }`); ParseType fills 6.",
+	"default-index-type":        "IndexType BTREE equals no IndexType: mysql/sqlspec_oss.go indexTypeSpec and postgres/sqlspec_oss.go indexSpec (`// Avoid printing the index type if it is the default.`).",
+	"engine-case":               "MySQL engine names are compared case-insensitively: mysql/sqlspec_oss.go tableSpec (`if strings.EqualFold(e.V, e1) { attr = specutil.VarAttr(\"engine\", e1)`) writes the canonical spelling.",
+	"pg-nulls-distinct-default": "IndexNullsDistinct{V:true} equals no attribute: postgres/inspect_oss.go (`V bool // NULLS [NOT] DISTINCT. Defaults to true.`), sqlspec_oss.go indexSpec prints it only when false.",
+	"pg-index-nulls-default": "IndexColumnProperty NULLS LAST on an ascending part / NULLS FIRST on a descending part equals no attribute: postgres/inspect_oss.go " +
+		"(`// NullsFirst defaults to true for DESC indexes.`, `// NullsLast defaults to true for ASC indexes.`), sqlspec_oss.go partAttr prints only the non-default combination.",
+	"pg-index-order": "PostgreSQL: the order of a table's indexes is not significant: postgres/sqlspec_oss.go tableSpec writes UNIQUE-constraint indexes as `unique` blocks after the `index` blocks " +
+		"and convertUnique appends them after the plain indexes on the way back; indexes are compared by name.",
 	"inherited-charset": "MySQL: an element's charset/collation equal to its parent's is not written (the element inherits it): sql/internal/sqlx/diff.go Charset/Collate " +
 		"(`// ... it needs to be defined explicitly on the schema. This is true, in case the element charset is different from its parent charset.`). " +
 		"The descriptor compares the effective value (own, else the parent's). An element value WITHOUT any parent value is not covered by this rule.",
@@ -410,8 +446,21 @@ var ruleDocs = map[string]string{
 
 // normParam may replace the rendering of one parameter field of a type.
 func (x *descr) normParam(t schema.Type, field string, fv reflect.Value) (string, bool) {
+	if field != "Precision" || fv.Kind() != reflect.Ptr || !fv.IsNil() {
+		return "", false
+	}
+	switch {
+	case x.d.name == "mysql" && isType(t, "*schema.TimeType"):
+		x.rule("mysql-time-precision-default")
+		return "0", true
+	case x.d.name == "postgres" && isType(t, "*postgres.IntervalType"):
+		x.rule("pg-interval-precision-default")
+		return "6", true
+	}
 	return "", false
 }
+
+func isType(t schema.Type, name string) bool { return fmt.Sprintf("%T", t) == name }
 
 func wellQuoted(v string, q byte) (string, bool) {
 	if len(v) < 2 || v[0] != q || v[len(v)-1] != q {
@@ -461,12 +510,12 @@ func (x *descr) literal(v string, c *schema.Column) string {
 	if hexBitPrefix(v) {
 		return v
 	}
-	if u, ok := wellQuoted(v, '\''); ok {
-		x.rule("literal-quotes")
-		v = u
-	} else if u, ok := wellQuoted(v, '"'); ok {
-		x.rule("literal-quotes")
-		v = u
+	if strings.EqualFold(v, "true") || strings.EqualFold(v, "false") {
+		if l := strings.ToLower(v); l != v {
+			x.rule("bool-literal-case")
+			return l
+		}
+		return v
 	}
 	if !textlike(c) && v != "" && !strings.ContainsAny(v, "/_ ") {
 		if r, ok := new(big.Rat).SetString(v); ok {
@@ -526,6 +575,41 @@ func pathClass(p string) string {
 		}
 	}
 	return b.String()
+}
+
+// normAttr applies the attribute-level rules that need reflection on dialect types (kept free of dialect
+// imports: the types are recognised by name). It returns the replacement rendering ("" = drop).
+func (x *descr) normAttr(a schema.Attr) (string, bool) {
+	tn := fmt.Sprintf("%T", a)
+	rv := reflect.ValueOf(a)
+	for rv.Kind() == reflect.Ptr {
+		rv = rv.Elem()
+	}
+	str := func(f string) string { return rv.FieldByName(f).String() }
+	switch tn {
+	case "*mysql.IndexType", "*postgres.IndexType":
+		if strings.EqualFold(str("T"), "BTREE") {
+			x.rule("default-index-type")
+			return "", true
+		}
+	case "*mysql.Engine":
+		if v := str("V"); v != strings.ToLower(v) {
+			x.rule("engine-case")
+		}
+		return fmt.Sprintf("%s{V:%q Default:%v}", tn, strings.ToLower(str("V")), rv.FieldByName("Default").Bool()), true
+	case "*postgres.IndexNullsDistinct":
+		if rv.FieldByName("V").Bool() {
+			x.rule("pg-nulls-distinct-default")
+			return "", true
+		}
+	case "*postgres.IndexColumnProperty":
+		nf, nl := rv.FieldByName("NullsFirst").Bool(), rv.FieldByName("NullsLast").Bool()
+		if x.partDesc != nil && (*x.partDesc && nf && !nl || !*x.partDesc && nl && !nf) {
+			x.rule("pg-index-nulls-default")
+			return "", true
+		}
+	}
+	return "", false
 }
 
 func tableParent(t *schema.Table) []schema.Attr {
